@@ -169,6 +169,16 @@ def make_election(rng, o=None):
             df.loc[m_, "baseline_gop"] += df.loc[m_, "baseline_dem"]
             df.loc[m_, "t_gop"] += df.loc[m_, "t_dem"]
             df.loc[m_, ["baseline_dem", "t_dem"]] = 0
+    if o.get("party_surge", bool(rng.random() < 0.08)) and len(df) > 12:
+        # one party more than doubles (or collapses) in many units while turnout stays ordinary: relative changes of a
+        # single party far outside the band the turnout-factor gate allows for turnout
+        up = bool(rng.random() < 0.7)
+        for j in df.index[rng.random(len(df)) < float(rng.uniform(0.3, 0.7))]:
+            two_t = int(df.loc[j, "t_dem"] + df.loc[j, "t_gop"])
+            bd = int(df.loc[j, "baseline_dem"])
+            nd = int(min(two_t * 0.97, bd * rng.uniform(2.1, 3.2))) if up else int(bd * rng.uniform(0.1, 0.4))
+            nd = max(0, min(nd, two_t))
+            df.loc[j, ["t_dem", "t_gop"]] = [nd, two_t - nd]
     if n_zero and len(df) > 10:
         idx = rng.choice(len(df), size=min(n_zero, len(df) // 10), replace=False)
         df.loc[idx, ["baseline_turnout", "baseline_dem", "baseline_gop"]] = 0
@@ -221,7 +231,8 @@ def make_feed(rng, el, o=None):
     partial_above = o.get("partial_above", 0.0)  # prob. a partial unit already exceeds what the model will predict
     float_counts = o.get("float_counts", bool(rng.random() < 0.5))
     strange = o.get("p_strange", 0.03)
-    unexpected_kinds = o.get("unexpected_kinds", ["known_county", "unknown_county", "unknown_district"])
+    unexpected_kinds = o.get("unexpected_kinds", ["known_county", "known_county", "unknown_county", "unknown_county",
+                                                  "unknown_district", "unknown_district", "odd_id"])
     pre, truth = el.pre, el.truth.set_index("geographic_unit_fips")
     rows, status = [], {}
     order = rng.permutation(len(pre))
@@ -286,6 +297,10 @@ def make_feed(rng, el, o=None):
             f = county if kind != "known_county" else f"{county}9{k}"
         else:
             f = f"{county}_9{k:02d}"
+        if kind == "odd_id":
+            # id formats a results provider may send for a unit that belongs to no county: an empty county part
+            # ("_ABSENTEE"), or fewer parts than usual
+            f = (f"{base.district}__9{k:02d}" if el.district else choice(rng, [f"_ABSENTEE{k}", f"_9{k:02d}"]))
         if f in used:
             continue
         used.add(f)
@@ -407,6 +422,10 @@ def dematerialise(m):
     el = Election(pre, m["config"], m["office"], m["geo_type"], truth, m.get("meta", {}))
     if el.meta.get("cat_key"):
         make_categorical(el, el.meta["cat_key"])
+    if el.meta.get("int_key"):
+        for col in ("district", "county_fips"):
+            if col in el.pre.columns and el.pre[col].notna().all() and (col != "district" or el.district):
+                el.pre[col] = el.pre[col].astype(int)
     return el, feed, m["call"]
 
 
